@@ -16,6 +16,40 @@ pub fn net_for_shard(shard: u64) -> (&'static str, bool) {
     NETS[(shard % 3) as usize]
 }
 
+/// First block under the Prague rules (README: the current-txid helper "coincides with the Prague
+/// upgrade activation"; the engine selects the rule set of the block being built).
+pub fn prague_height(net: &str) -> u64 {
+    match net {
+        "signet" => 275_000,
+        "bitcoin" | "mainnet" => 923_369,
+        _ => 0,
+    }
+}
+
+pub fn prague_at(net: &str, number: u64) -> bool {
+    number >= prague_height(net)
+}
+
+/// Mine empty blocks 0..base-1 (committing in chunks so that memory stays flat), as an indexer
+/// does before the first programmable block. Returns false when mining was refused.
+pub fn mine_to(d: &mut Driver, base: u64) -> bool {
+    let rec = d.record;
+    d.record = false;
+    let mut left = base.saturating_sub(d.next_height());
+    let mut ok = true;
+    while left > 0 {
+        let k = left.min(25_000);
+        if !d.exec(Op::Mine { n: k, ts: 1 }).is_ok() {
+            ok = false;
+            break;
+        }
+        left -= k;
+        d.exec(Op::Commit);
+    }
+    d.record = rec;
+    ok
+}
+
 pub fn new_driver(tag: &str) -> Driver {
     let dir = rpc::fresh_dir(tag);
     Driver::new(Inst::open(&dir).expect("open instance"))
